@@ -195,7 +195,10 @@ def docstring(
             line = candidate_doc_str[prev_nl:next_nl]
             if not line.isspace():
                 break
-            # prev_nl = next_nl
+            prev_nl = next_nl + 1
+            next_nl = candidate_doc_str.find("\n", prev_nl)
+        if next_nl == -1:
+            line, next_nl = candidate_doc_str[prev_nl:], len(candidate_doc_str)
             # current_indent:int = count_iter_items(takewhile(str.isspace, line))
 
     if indent_level > current_indent:
